@@ -314,6 +314,9 @@ class EASStage(Stage):
         self.cloud = CloudTopHeight(self.cfg)
         # in range with PE > 2 thr / PE < 2 thr, out of range above / below
         self.ev = [(math.radians(5.0), 2.0, 10.0, 0.1, 0.2), (math.radians(30.0), 15.0, 1e-4, -0.9, 2.5), (math.radians(10.0), 25.0, 1.0, 0.5, -1.0), (math.radians(1.0), -0.5, 1.0, 1.2, 0.7), (math.radians(20.0), 8.0, 300.0, -0.3, -2.8)]
+        # two events on ONE track (same number of steps, same intermediate array shapes), ascending energy: anything an
+        # event leaves behind in a per-shape scratch array reaches the next one
+        self.ev += [(math.radians(20.0), 2.0, 1.0, 0.45, 0.3), (math.radians(20.0), 2.0, 10.0, 0.45, 0.3)]  # (a site with no cloud above the track in either month)
         self.k = len(self.ev)
 
     def make(self):
